@@ -107,9 +107,11 @@ def plan_C05(run):
 
 
 def plan_C06(run):
-    n = q(run, 2500, 40000)
+    n = q(run, 1500, 30000)
     campaign(run, "rate-campaign", {"C06"}, lambda s, r: drivers.rate_campaign(s, r, n))
     run.require_classes(RATE_CLASSES, "rate-campaign")
+    # league histories: every step validated from the observed pre-state, which must be the previous post-state
+    campaign(run, "leagues", {"C06"}, lambda s, r: drivers.leagues(s, r, q(run, 15, 80), q(run, 30, 120), q(run, 100, 1200), predictions=False))
     return {"rule": "random rate() calls; sigma bounds per game",
             "assumptions": ["strict positivity is not demanded for a player whose prior sigma is 0 under limit_sigma (clamped to the prior)"]}
 
@@ -168,6 +170,8 @@ def plan_C12(run):
     n = q(run, 1200, 30000)
     campaign(run, "predict-campaign", {"C12"}, lambda s, r: drivers.predict_campaign(s, r, n))
     run.require_classes(PRED_CLASSES, "predict-campaign")
+    # predictions on live, repeatedly re-rated objects of one model (caches keyed by identity or id would show here)
+    campaign(run, "leagues", {"C12"}, lambda s, r: drivers.leagues(s, r, q(run, 15, 80), q(run, 12, 40), q(run, 60, 400)))
     return {"rule": "all three predictions on random games against the 40-digit closed forms of Predict.tla, 1e-9 absolute",
             "assumptions": ["predict_rank on two teams uses n*beta^2 (the n-team form); band probability as coded (DESIGN 3.2)"]}
 
@@ -185,13 +189,78 @@ def plan_C13(run):
                             "acceptance of well-formed calls is demanded on the numeric domain (sigma = 0 with tau = 0 is outside it)"]}
 
 
+def shift_refs(ev, off, midoff):
+    """Make allocation numbers and model ids of one process disjoint from the others'."""
+    def walk(p):
+        if isinstance(p, dict):
+            if p.get("t") == "rating":
+                p["ref"] += off
+            for v in p.values():
+                walk(v)
+        elif isinstance(p, list):
+            for v in p:
+                walk(v)
+    walk(ev)
+    for k in ("model", "model_after", "model0"):
+        if k in ev:
+            ev[k]["id"] += midoff
+    return ev
+
+
+def process_stage(run, count):
+    """The same scripted calls in three processes (PYTHONHASHSEED 0 / 1 / 4242; the third with polluting
+    earlier calls); merged so that the trace specification compares them call by call."""
+    import subprocess
+    import sys as _sys
+    here = os.path.dirname(os.path.abspath(__file__))
+    cfgs = [("0", "plain"), ("1", "plain"), ("4242", "polluted")]
+    outs = []
+    procs = []
+    for i, (hs, mode) in enumerate(cfgs):
+        out = os.path.join(run.wd, "proc%d.ndjson" % i)
+        outs.append(out)
+        env = dict(os.environ)
+        env["PYTHONHASHSEED"] = hs
+        procs.append(subprocess.Popen([_sys.executable, os.path.join(here, "child.py"), str(run.seed), str(count), mode, out], env=env))
+    for p in procs:
+        if p.wait() != 0:
+            raise MachineryError("child process failed")
+    streams = []
+    for i, out in enumerate(outs):
+        evs = [json.loads(l) for l in open(out)]
+        streams.append(tlc.split_traces(evs))
+    merged = []
+    for k in range(count):
+        tid = k + 1
+        merged.append({"op": "reset", "tid": tid})
+        # ungrouped (polluting) events first, then the grouped calls process by process per group
+        per = [[shift_refs(e, 100000 * i, 1000 * i) for e in streams[i][k] if e["op"] != "reset"] for i in range(len(cfgs))]
+        for i in range(len(cfgs)):
+            for e in per[i]:
+                if not e["group"]:
+                    e["tid"] = tid
+                    merged.append(e)
+        gids = [e["group"] for e in per[0] if e["group"]]
+        for g in gids:
+            for i in range(len(cfgs)):
+                for e in per[i]:
+                    if e["group"] == g:
+                        e["tid"] = tid
+                        e["role"] = "base" if i == 0 else "same"
+                        merged.append(e)
+    validate_events(run, merged, {"C14"}, "three-processes")
+    run.notes.append("process stage: %d scripted calls x 3 processes (PYTHONHASHSEED 0, 1, 4242; the third with polluting earlier calls)" % (4 * count))
+
+
 def plan_C14(run):
+    process_stage(run, q(run, 120, 2500))
     n = q(run, 150, 3000)
     campaign(run, "history-groups", {"C14"}, lambda s, r: drivers.same_groups(s, r, n))
     run.require_classes(["group:C14:same"], "history-groups")
     m = q(run, 600, 10000)
     campaign(run, "rate-campaign", {"C14"}, lambda s, r: drivers.rate_campaign(s, r, m))
     campaign(run, "predict-campaign", {"C14"}, lambda s, r: drivers.predict_campaign(s, r, m // 3))
+    campaign(run, "leagues", {"C14"}, lambda s, r: drivers.leagues(s, r, q(run, 15, 80), q(run, 10, 40), q(run, 40, 300), twin=True, prop="C14"))
     return {"rule": "the same call on a fresh model and on a model with a history of calls with every per-call option, "
                     "with different ids / names / objects: bit-identical results; model attributes compared around every call"}
 
@@ -210,6 +279,18 @@ def plan_C16(run):
     run.require_classes(["group:C16:scaled", "group:C16:shifted"], "scale-groups")
     return {"rule": "games rescaled by k in {2^-10, 2^10, 1e-3, 0.3, 7, 1e3, random} (model mu/sigma/beta/tau with them) and "
                     "shifted by constants; rate for PL/BT within twice the budget, all predictions within 1e-12"}
+
+
+def plan_C17(run):
+    step = q(run, 0.1, 0.02)
+    nts = q(run, 7, 19)
+    campaign(run, "kernel-sweep", {"C17"}, lambda s, r: drivers.kernel_sweep(s, r, step, nts, q(run, 3000, 60000)))
+    run.require_classes(["kernel=v", "kernel=w", "kernel=vt", "kernel=wt", "kernel=phi_major", "asymptotic", "computed", "huge_x"], "kernel-sweep")
+    return {"rule": "x over [-40, 40] step %g x %d log-spaced t in [1e-8, 1e-2], random points, +-64 ulp around every branch threshold "
+                    "(located by bisection on the implementation's observable branch switch), huge |x|; exact V, W, V~, W~ and Phi at 40 digits" % (step, nts),
+            "assumptions": ["'rounding of order 1e-14/t' is read as 1e-13/t", "v, w 1e-6 relative or both below 2^-1022",
+                            "points within 1e-9 relative of a guard threshold may take either branch",
+                            "exact forms compared for |x| <= 500; beyond only finiteness and range"]}
 
 
 def plan_C18(run):
@@ -234,6 +315,7 @@ def plan_C20(run):
     n = q(run, 120, 2500)
     campaign(run, "object-campaign", {"C20"}, lambda s, r: drivers.object_campaign(s, r, n))
     campaign(run, "twin-leagues", {"C20"}, lambda s, r: drivers.restore_groups(s, r, n))
+    campaign(run, "leagues", {"C20"}, lambda s, r: drivers.leagues(s, r, q(run, 15, 80), q(run, 10, 40), q(run, 40, 300), twin=True, prop="C20"))
     run.require_classes(["op=rating", "op=create", "op=deepcopy", "group:C20:same"], "object-campaign")
     return {"rule": "constructors with None/0/-0.0/negative/huge values and names; deepcopy of ratings and nested lists; twin leagues "
                     "(live objects vs rebuilt from stored (mu, sigma) by create_rating / rating / deepcopy before every game)"}
@@ -256,6 +338,7 @@ PLANS = {
     "C14": plan_C14,
     "C15": plan_C15,
     "C16": plan_C16,
+    "C17": plan_C17,
     "C18": plan_C18,
     "C19": plan_C19,
     "C20": plan_C20,
